@@ -9,21 +9,21 @@ CHECKS = {
  "C01": ("Lean theorems: the recursion table of the code equals the Gaussian integral for all indices (momTab_eq; table_entry_eq_integral over Mathlib's Lebesgue integral), unit normalisation of Cartesian components; the compiled model is compared with overlap_integral / overlap_integral_asymmetric / Overlap.construct_array_contraction entry by entry within the property's tolerance (1e-8) on every pair of angular momenta 0..5, both coordinate types, union-block relation",
          "3-D product, contraction and assembly are executed by the model in the correspondence but the lift of the 1-D theorem to the contracted 3-D block is not yet a theorem; float rounding of the implementation is observed, not proved",
          "Lean 4 proof (model table = integral) + translator-checked tables + differential correspondence model vs code"),
- "C02": ("Lean theorems: the padded derivative table equals the integral of a Gaussian against the k-th (iterated) derivative of the other for all k <= d_max, i <= a_max (diffTab_eq, table_entry_eq_integral), the padding is necessary (diffPlanes_unpadded_ne), second-derivative symmetry; compiled model vs kinetic_energy_integral within 1e-8*sqrt(T_aa T_bb) on every pair of angular momenta 0..5",
-         "as C01; the sum over axes and -1/2 factor are executed by the model, not separately proved",
-         "Lean 4 proof (derivative table = integral) + differential correspondence"),
+ "C02": ('Lean theorems: the padded derivative table equals the integral of a Gaussian against the k-th (iterated) derivative of the other for all k <= d_max, i <= a_max (diffTab_eq, table_entry_eq_integral), the padding is necessary (diffPlanes_unpadded_ne), the whole kinetic shell block is the integral of phi_a (-1/2 Laplacian) phi_b of the contracted normalised functions (kineticBlock_eq_integral) and equals 1/2 the integral of grad phi_a . grad phi_b (kineticBlock_eq_gradient, block-level integration by parts), hence symmetric and positive semi-definite; compiled model vs kinetic_energy_integral within 1e-8*sqrt(T_aa T_bb) on every pair of angular momenta 0..5, tail regime, shells reached through the parameter setters, exact-zero coefficients',
+         'floating-point error of the implementation is observed against the exact model, not proved',
+         'Lean 4 proof (kinetic block = integral over R^3) + differential correspondence'),
  "C07": ("Lean theorems: table = integral for every moment order (no bound), order 0 independent of the origin, binomial origin-shift law (moment_shift); compiled model vs moment_integral for all 125 order triples 0..4, origins on/off/far, transforms; order-0 and shift law also tested on implementation outputs",
          "tolerance for 'to double precision' = 1e-9 x running absolute-value majorant of the element computed by the model",
          "Lean 4 proof + differential correspondence"),
  "C08": ("Lean theorems: first-derivative table = integral, antisymmetry <a|d|b> = -<b|d|a> for all polynomial prefactors (deriv_antisymm, table_swap), conjugate-transpose fill is correct and the plain-transpose fill is wrong (conj_fill_correct, plain_fill_wrong: the repaired defect); compiled model vs momentum_integral / angular_momentum_integral for every ordered pair in every shell ordering, Hermiticity tested",
          "the written-out r x grad products are executed by the model; their antisymmetry is covered by the correspondence of every ordered pair",
          "Lean 4 proof + differential correspondence over all shell orderings"),
- "C03": ("Lean theorems for an arbitrary Boys sequence F: the three vertical passes fill V[m][a] with the Rys-form value on m+|a| < m_max (vertical_table_eq_spec), the three horizontal passes reproduce any family satisfying the transfer relations, in particular contracted ones (horizontal_table_eq_spec, contraction_preserves_transfer), the shell swap is a symmetry of the specification (spec_swap); compiled model (with its own 320-bit Boys function) vs point_charge_integral per charge within 1e-8*sqrt(|V_aa V_bb|) and vs nuclear_electron_attraction_integral, every ordered pair of l 0..5, charges on centres / between / far (Boys arguments 0 .. > 1e4)",
-         "the identity Rys/Boys form = Coulomb integral (Gaussian transform of 1/r, Fubini) is specification, not theorem; scipy.hyp1f1 is covered only through the correspondence; block-level composition of the three table theorems with contraction/selection is executed, not yet a single theorem",
-         "Lean 4 proof (OS vertical + HGP horizontal = Rys spec) + differential correspondence"),
- "C04": ("Lean theorems for an arbitrary Boys sequence: two-electron vertical table = Rys form (vertical_table_eq_spec), electron-transfer table = two-variable Gaussian (Wick) Rys form on |a|+|c| < m_max (etransfer_table_eq_spec, from the consistency of the Wick recursion), horizontal passes shared with C03, physicists' = middle-index swap; compiled model vs ElectronRepulsionIntegral.construct_array_contraction on all 256 l-tuples 0..3 (thorough; 26 in quick) and whole-basis calls in both notations within 1e-6*sqrt((ab|ab)(cd|cd)); ill-conditioned tight-bra/diffuse-ket quartets are reported as the recorded finding F10",
-         "Rys form = Coulomb integral is specification (trusted base); float rounding amplification in the implementation (finding F10) is visible only to the correspondence",
-         "Lean 4 proof (vertical, electron transfer = Rys/Wick spec) + differential correspondence + known-finding matching"),
+ "C03": ("Lean theorems: for an arbitrary Boys sequence the vertical and horizontal passes, contraction and component selection compute the contracted Rys form (pointChargeBlock_eq_rys); with the true Boys function the three-dimensional Coulomb integral of two primitives of arbitrary angular momenta is formalised (Gaussian transform of 1/r, Fubini, Rys substitution: coulomb_general), so every entry of the model's point-charge block equals -q times the integral of phi_a phi_b / |r - C| over R^3 (pointChargeBlock_eq_integral); shell-swap symmetry; compiled model (320-bit Boys function) vs point_charge_integral per charge within 1e-8*sqrt(|V_aa V_bb|) and vs nuclear_electron_attraction_integral, every ordered pair of l 0..5, charges on a ladder of Boys arguments 0 .. 3e4",
+         "the model's 320-bit Boys evaluation (series / downward recursion) is validated numerically, not proved equal to the Boys integral; scipy.hyp1f1 is covered only through the correspondence",
+         'Lean 4 proof (point-charge block = Coulomb integral over R^3) + differential correspondence'),
+ "C04": ("Lean theorems: vertical recursion, electron transfer, four-fold contraction, both horizontal passes, component selection, angular norms and axis order of the model of ElectronRepulsionIntegral.construct_array_contraction compute the contracted Rys form for arbitrary angular momenta and any Boys table (eriBlock_eq_rys); the six-dimensional Coulomb integral of four primitive Gaussians is formalised (Gaussian transform of 1/r12, two-variable Gaussian moments by integration by parts, Fubini, Boys integral: coulomb2_general, integrability included) and closed under the horizontal relations (horiz4_unique), so every block entry equals the integral of phi_a(r1) phi_b(r1) phi_c(r2) phi_d(r2)/|r1-r2| over R^6 (eriBlock_eq_integral); consequences: the three generators of the eight-fold symmetry, (ab|ab) >= 0, Schwarz; physicists' = middle-index swap; compiled model vs the implementation on all 256 l-tuples 0..3 (thorough; 26 in quick) and whole-basis calls in both notations within 1e-6*sqrt((ab|ab)(cd|cd)); ill-conditioned tight-bra/diffuse-ket quartets are the recorded finding F10",
+         "float rounding amplification in the implementation (finding F10) is visible only to the correspondence; the model's 320-bit Boys evaluation is validated numerically",
+         'Lean 4 proof (ERI block = six-dimensional Coulomb integral) + differential correspondence + known-finding matching'),
  "C05": ("Lean theorems: the general back-end equals the n-th iterated derivative of x^a e^{-ax^2} for all a, n, x (twisted Leibniz rule, Hermite recurrence), the direct back-end agrees with it for orders <= 2 on every component of a full shell, the dispatcher accepts 'direct' iff all orders <= 2 and rejects unknown names, and the order-3 counter-example of the repaired defect; compiled model of both back-ends vs evaluate_basis / evaluate_deriv_basis for all 125 order triples, points on centres and coordinate planes; rejection behaviour compared as an enum",
          "scipy eval_hermite/comb/perm covered through the correspondence only",
          "Lean 4 proof + differential correspondence incl. error behaviour"),
@@ -33,12 +33,12 @@ CHECKS = {
  "C06": ("Lean theorems in a differential ring with three commuting derivations: the half-range Leibniz loop of evaluate_deriv_density equals d^L rho for every order triple when gamma is symmetric (and is wrong without symmetry: explicit counter-example), gradient/Laplacian/Hessian forms equal the derivatives, Hessian symmetric with trace = Laplacian, t_alpha = t_+ + alpha*Laplacian, clipping rule; the forms are tied to the code by exact probing (translator tr_forms.py runs the real functions with indicator stubs; kernel-checked obligation forms_ok); end-to-end correspondence of every density function with the defining sums built from the model's derivative values, both back-ends, rectangular transforms, thresholds bracketing the clip boundary",
          "a differential ring models smooth functions on R^3 (standard, instance given for polynomials); non-negativity for PSD gamma is observed (no rejection), not proved",
          "Lean 4 proof + exact-probing translator with decide obligation + differential correspondence"),
- "C11": ("Lean theorems: block symmetries at specification level that justify the code's filling by symmetry (overlap/moment: commutativity of the integrand; kinetic: two integrations by parts; momentum type: antisymmetry + conjugate fill; point charge: swap symmetry of the Rys form); the model itself computes every orientation directly; checks: every public function on all permutations of 2-5 shells equals the index-permuted array, symmetric/Hermitian/eight-fold symmetry, shell blocks in both (pairs) and all eight (quartets) orientations incl. tight/diffuse quartets (recorded finding F10)",
-         "eight-fold symmetry of the repulsion spec is not a separate theorem (follows from commutativity in the Rys form; checked by correspondence)",
-         "Lean 4 proof of block symmetries + relational checks on the implementation + correspondence"),
- "C12": ("Lean theorems: all recursion parameters, tables and overlap/moment/derivative/kinetic blocks are invariant under a common translation of centres and origin; reflection parity of the one-dimensional factors; checks: every public function under all 48 signed axis permutations (exact index permutation) and random proper/improper orthogonal matrices with translations, using exact shell representation matrices; invariants (density, t+, Laplacian, ESP); angular momentum shifts by d x p",
-         "PARTIAL: covariance under general rotations is verified numerically only (not a theorem); Coulomb-type blocks' translation invariance follows from the same parameter lemma but is not stated separately",
-         "Lean 4 proof (translations, reflections) + relational checks with representation matrices"),
+ "C11": ("Lean theorems: the model's arrays are, entry by entry, the block of the shells the indices belong to, in the documented order shell / segment / component (locate_offset, entry2_layout), so reordering shells permutes indices by construction; block symmetries proved for the model's blocks themselves justify the code's filling by symmetry: overlap, kinetic and point-charge blocks symmetric (overlapMat_symm, kineticMat_symm, pointChargeMat_symm), momentum type antisymmetric + conjugate fill (conj_fill_correct, plain_fill_wrong), the three generators of the eight-fold symmetry of the repulsion block (eriBlock_swap_ab / _cd / _electrons); checks: every public function on all permutations of 2-5 shells equals the index-permuted array, symmetric/Hermitian/eight-fold symmetry, shell blocks in both (pairs) and all eight (quartets) orientations incl. tight/diffuse quartets (recorded finding F10)",
+         'floating-point error of the implementation is observed, not proved',
+         'Lean 4 proof of layout and block symmetries + relational checks on the implementation + correspondence'),
+ "C12": ("Lean theorems: (i) every affine isometry g of Euclidean 3-space (all translations, proper and improper rotations) preserves volume, and if the moved system's functions satisfy psi_i(g r) = sum_j D_ij phi_j(r) then overlap-type, point-charge (charge moved along) and Coulomb integrals of the moved system are D...D applied to the original ones (lift_overlap, lift_pointCharge, lift_coulomb); (ii) for a Cartesian shell with the full component list the moved shell's functions at the moved point are sum_c' repMat(R) c c' times the original functions, repMat depending only on the linear part and the component list, = 1 for s and = R for p (shellFnE_moved, exists_repMat, repMat_s, repMat_p), translations need no hypothesis; (iii) for the model's blocks themselves: overlapBlock_moved, pointChargeBlock_moved, eriBlock_moved, and translation invariance of all block types (TranslationLaws for overlap / moment / derivative / kinetic, pointChargeBlock_translate, eriBlock_translate); reflection parity of the one-dimensional factors; checks: every public function under all 48 signed axis permutations (exact index permutation) and random proper/improper orthogonal matrices with translations, using exact shell representation matrices; invariants (density, t+, Laplacian, ESP); full rank-1..4 derivative tensors of basis functions and density, gradient, Hessian, stress tensor, Ehrenfest force and Hessian rotate as tensors; angular momentum shifts by d x p",
+         'PARTIAL: rotation covariance is proved for overlap, point-charge and repulsion blocks of Cartesian shells; for kinetic / momentum / moment blocks (gradient and moment tensors) and for spherical shells (T D pinv(T)) it is verified numerically on the implementation only',
+         'Lean 4 proof (rigid-motion covariance of integrals and of Cartesian shell functions) + relational checks with representation matrices'),
  "C13": ("Lean theorems about the model's contraction: a column of a generalized shell equals the single-column shell, invariance under any permutation of primitives and under splitting a primitive, linearity in the coefficients, normalisation absorbs a positive scale factor and a negative one flips the sign; checks: every public function on a basis and its rewritten-but-equivalent form (all primitive permutations, scale factors 1e-6..1e6 of both signs)",
          "theorems are about `contract`, through which every block of the model is formed; the implementation is tied by the relational checks and by the correspondences of C01-C08",
          "Lean 4 proof + metamorphic checks on the implementation"),
@@ -51,9 +51,9 @@ CHECKS = {
  "C16": ("Lean theorems (Mathlib measure theory on R^3): the model's overlap / moment / kinetic blocks equal the integrals over R^3 of products of exactly the functions (and derivatives) that the evaluation model returns — same primitive norms, component order and sign — for all shells; unit normalisation; check: trapezoid quadrature of the library's own evaluations on a 73^3 grid vs its analytic integrals, tr(gamma S), tr(gamma T)",
          "quadrature error < 1e-10 for the stated exponent range (assumed; halving h in thorough)",
          "Lean 4 proof (Fubini/product measure) + numerical quadrature of implementation outputs"),
- "C17": ("Lean theorems: Gram matrices are symmetric PSD with Cauchy-Schwarz bounds (overlap via C16's identification with the L2 inner product; kinetic as half a Gram matrix of gradients); check: eigenvalues and Schwarz inequalities of the implementation's matrices incl. nearly dependent bases",
-         "PARTIAL: definiteness of point-charge and repulsion matrices is conditional on positivity of the Coulomb kernel (not formalised) and is measured on the implementation",
-         "Lean 4 proof (Gram) + direct eigenvalue measurement"),
+ "C17": ("Lean theorems for the model's blocks themselves (any finite family of shell/segment/component indices): x^T S x = integral of (sum x_i phi_i)^2 >= 0, |S_ab| <= sqrt(S_aa S_bb) (overlap_psd, overlap_abs_le); T_ab = 1/2 integral grad phi_a . grad phi_b, PSD (kineticBlock_eq_gradient, kinetic_psd); x^T V x = -q integral (sum x_i phi_i)^2/|r-C| <= 0 for q >= 0 (pointCharge_nsd); the Coulomb kernel is positive (coulomb_kernel_nonneg via Gaussian transform and Gaussian convolution square root), so the repulsion block is PSD over index pairs, (ab|ab) >= 0 and |(ab|cd)| <= sqrt((ab|ab)(cd|cd)) (eriBlock_psd, eriBlock_self_nonneg, eriBlock_schwarz, through eriBlock_eq_integral); congruence with transformation matrices preserves definiteness (GramLaws); check: eigenvalues and Schwarz inequalities of the implementation's matrices incl. nearly dependent bases",
+         'the numerical slack (1e-9 of the largest eigenvalue, 1e-6 for the repulsion array) of the floating-point matrices is measured, not derived',
+         'Lean 4 proof (definiteness of all four families at block level) + direct eigenvalue measurement'),
  "C20": ("Lean theorems over the reals: documented cutoff <=> exp(-ab/(a+b) d^2) < tol, monotone in the tolerance, conservative bound for s-type elements; check: blockwise comparison of screened vs unscreened overlap with distances bracketing the cutoff, tolerances 1e-16..0.5, None, transforms, booleans rejected",
          "float64 evaluation of the cutoff; ties avoided by bracketing",
          "Lean 4 proof + blockwise differential check"),
@@ -63,7 +63,7 @@ CHECKS = {
  "C18": ("Lean token-line model of parse_nwchem / parse_gbs / make_contractions with kernel-evaluated instances (zero, one, many lines before the first element; SP shells; D exponents) and round-trip theorems in GBProofs/ParserProofs.lean when present; check: random well-formed files rendered with comments, blank lines, white-space variation and 0/1/2/7 preamble lines must give back exactly the shells written, and the implementation must agree with the Lean model on the token lines of every file (repository data files as corpus); make_contractions with string/list/tuple coordinate types, arguments snapshotted, repeated calls; from_pyscf on a duck-typed Mole",
          "regular-expression behaviour below the token level (tabs, \\s* spanning lines) is covered by the file-level correspondence only; from_iodata is outside the model (package absent)",
          "Lean model + kernel-evaluated instances (+ round-trip proof) + differential correspondence on rendered files"),
- "C19": ("Lean theorem history_pure: if every effect summary is pure, no history of calls of any length (returning or raising) changes an argument object or the process-wide floating-point error state, and results do not depend on the history; the hypothesis is discharged by decide for the summaries that the static effect translator extracts from every function of the package on every run (mutating statements with a path-joining alias analysis, np.seterr protection); counter-example theorems for the two repaired defects; monitored random histories of 1-30 valid and invalid public calls with bitwise snapshots of all arguments, shells and numpy.geterr(), repeated-call equality, freshness of every construct_array_contraction result, renormalisation after parameter updates",
+ "C19": ("Lean theorem history_pure: if every effect summary is pure, no history of calls of any length (returning or raising) changes an argument object or the process-wide floating-point error state, and results do not depend on the history; the hypothesis is discharged by decide for the summaries that the static effect translator extracts from every function of the package on every run (mutating statements with a path-joining alias analysis, np.seterr protection); counter-example theorems for the two repaired defects; monitored random histories of 1-30 valid and invalid public calls with bitwise snapshots of all arguments, shells and numpy.geterr(), repeated-call equality, freshness of every construct_array_contraction result, renormalisation after parameter updates (exponents, coefficients, centre) and equality of overlap / kinetic / evaluation / point-charge arrays with those of a shell constructed afresh with the same parameters",
          "the alias analysis is a conservative syntactic approximation (calls are assumed to allocate their results: checked dynamically by the freshness test); C extensions of NumPy/SciPy are assumed not to mutate their inputs",
          "static effect translator -> Lean decide obligation + history theorem + monitored histories"),
 }
